@@ -59,6 +59,8 @@ class State:
         s.iter = getattr(self, 'iter', None)
         s.ptr_lo = dict(getattr(self, 'ptr_lo', None) or {})
         s.env_epoch = getattr(self, 'env_epoch', 0)
+        s.escaped = set(getattr(self, 'escaped', ()) or ())
+        s.arrdefs = set(getattr(self, 'arrdefs', None) or ())
         s.loop_mark = getattr(self, 'loop_mark', 0)
         s.held = getattr(self, 'held', ())
         s.actions = getattr(self, 'actions', [])
@@ -203,18 +205,24 @@ class Exec:
         return a
 
     def collapse_mem(self, st):
+        esc = set(getattr(st, 'escaped', ()) or ())
         for key, cell in st.mem.items():
             if cell[1]:
+                keep = [(p, v) for (p, v) in cell[1] if p.cid is not None and p.cid < 0 and p.cid not in esc]
                 cell[0] = self.mem_array(st, cell[2])
-                cell[1] = []
+                cell[1] = keep
 
     def havoc_mem(self, st, sorts=None, tag='H'):
+        """All memory becomes arbitrary -- except the objects allocated by this path whose address never escaped (was
+        never stored in memory or passed to other code): nobody else can reach them."""
+        esc = set(getattr(st, 'escaped', ()) or ())
         for key in list(st.mem.keys()):
             cell = st.mem[key]
             if sorts is not None and key not in sorts:
                 continue
+            keep = [(p, v) for (p, v) in cell[1] if p.cid is not None and p.cid < 0 and p.cid not in esc]
             cell[0] = self.fresh('M%s_%s' % (tag, mangle(key)), z3.ArraySort(Addr, cell[2]))
-            cell[1] = []
+            cell[1] = keep
 
     def load_leaf(self, st, sort, p):
         cell = self._memcell(st, sort)
@@ -256,7 +264,21 @@ class Exec:
             a = z3.Store(a, q.term(), v)
         return z3.Select(a, p.term())
 
+    def note_escape(self, st, term):
+        """A pointer to an object allocated by this path was stored in memory or handed to other code."""
+        try:
+            if z3.is_app(term) and term.decl().eq(Addr.mkaddr) and z3.is_int_value(term.arg(0)):
+                cid = term.arg(0).as_long()
+                if cid < 0:
+                    esc = set(getattr(st, 'escaped', ()) or ())
+                    esc.add(cid)
+                    st.escaped = esc
+        except Exception:
+            pass
+
     def store_leaf(self, st, sort, p, term):
+        if sort == Addr:
+            self.note_escape(st, term)
         cell = self._memcell(st, sort)
         ws = cell[1]
         # a later write to the same address shadows an earlier one
@@ -546,9 +568,11 @@ class Exec:
         d = getattr(fr, 'dry', None)
         if d is not None and pred is not None:
             head, body, outs = d
-            if bi == head or bi not in body:
-                outs.append(st)
+            if bi == head:
+                outs.append(st)      # state at the start of the next iteration
                 return
+            if bi not in body:
+                return               # loop exit: does not flow into another iteration
         if bi in fr.heads:
             pol = self.loop_policy(fr, bi)
             body = fr.heads[bi]
@@ -661,7 +685,7 @@ class Exec:
         n_obl, n_cov, n_paths = len(self.obls), len(self.covers), self.paths
         self.dry = getattr(self, 'dry', 0) + 1
         try:
-            self.run_instrs(fr2, head, self.first_nonphi(blk), None, st_d, lambda s2, r: outs.append(s2))
+            self.run_instrs(fr2, head, self.first_nonphi(blk), None, st_d, lambda s2, r: None)
         finally:
             self.dry -= 1
             del self.obls[n_obl:]
@@ -728,8 +752,10 @@ class Exec:
         for (key, a), pv in cells.items():
             if pv is None:
                 cell = st.mem[key]
+                esc = set(getattr(st, 'escaped', ()) or ())
+                keep = [(p, v) for (p, v) in cell[1] if p.cid is not None and p.cid < 0 and p.cid not in esc]
                 cell[0] = self.fresh('M%s_%s' % (tag, mangle(key)), cell[0].sort())
-                cell[1] = []
+                cell[1] = keep
             else:
                 p, srt = pv
                 self.store_leaf(st, srt, p, self.fresh('cell' + tag, srt))
@@ -925,6 +951,18 @@ class Exec:
         self.store(st, a.x, V(ins['val']['t'], v.x) if not isinstance(v.t, str) else v)
 
     def on_store(self, fr, ins, st, a, v):
+        # ghost coupling: a store into a word of an owned bucket updates the abstract contents (coupling.py)
+        if isinstance(a.x, PAddr) and self.spec is not None and not getattr(self, 'pure_depth', 0):
+            reg = ins['addr'].get('n') if ins.get('op') == 'Store' else None
+            if reg is None:
+                try:
+                    reg = ins['call']['args'][0].get('n')
+                except Exception:
+                    reg = None
+            info = getattr(fr, 'addrinfo', {}).get(reg) if reg else None
+            if info is not None and info[0] in ('bucket', 'bucketOf') and not isinstance(v, tuple) and not isinstance(v.x, list):
+                import coupling
+                coupling.on_store(self.spec, self, st, info, a.x, self.term(v))
         if isinstance(a.x, PAddr) and ins.get('op') == 'Store':
             self.on_access(st, 'plain-store', a.x, ins, fr, ins['addr'].get('n'))
 
@@ -1400,6 +1438,8 @@ class Exec:
     def call_function(self, fr, ins, name, args, st, k, bindings=None, via=None):
         f = self.prog.funcs.get(name)
         con = self.spec.contract_for(name) if self.spec else None
+        if con is not None or self.spec.intrinsic(name) is None:
+            pass
         if con is not None and not self.spec.inline_anyway(con, self) and not (getattr(self, 'pure_depth', 0) and f and f['blocks']
                                                                                 and not any(c.kind == 'trusted' for c in con.clauses)):
             return self.spec.apply_contract(self, fr, ins, con, name, args, st, k)
